@@ -405,6 +405,7 @@ func CheckC14(e *Env) int {
 	}
 	progs = append(progs, errNameProgs(e)...)
 	progs = append(progs, lateImportProgs()...)
+	progs = append(progs, inventedParamNameFamily()...)
 	results := RunPool(e, progs, PoolOpts{Execute: true, Name: "c14"})
 	byKey := map[key]*ProgResult{}
 	for _, pr := range results {
